@@ -202,6 +202,15 @@ func (cs *caseState) setAnomaly(s string) {
 }
 
 func (cs *caseState) consume(s *sstate) {
+	defer func() {
+		if r := recover(); r != nil {
+			cs.setAnomaly(fmt.Sprintf("panic while reading a frame received by streamer %d: %v", s.id, r))
+			cs.mu.Lock()
+			s.outClosed = true
+			cs.cond.Broadcast()
+			cs.mu.Unlock()
+		}
+	}()
 	for {
 		cs.mu.Lock()
 		for s.paused {
@@ -338,7 +347,7 @@ func (cs *caseState) syncBarrier() string {
 			return "probe write failed: " + err.Error()
 		}
 		ready := func(s *sstate) bool { return s.connected && !s.paused && !s.closeReq }
-		if !cs.waitCond(hangBound, func() bool {
+		if !cs.waitCond(hangBound*9/10, func() bool {
 			for _, id := range cs.order {
 				if s := cs.strs[id]; ready(s) && s.lastProbe < n {
 					return false
